@@ -158,7 +158,9 @@ macro_rules! elem_plain {
                     TOTAL_CLONES += 1;
                 }
                 fault::tick();
-                Self::raw(self.id.wrapping_add(CLONE_STEP), self.tag)
+                // the n-th clone made from this element gets id + n * CLONE_STEP (distinct identities)
+                let n = unsafe { CLONES[ix(self.id)] };
+                Self::raw(self.id.wrapping_add(CLONE_STEP.wrapping_mul(n)), self.tag)
             }
         }
     };
@@ -213,7 +215,8 @@ macro_rules! elem_drop {
                     TOTAL_CLONES += 1;
                 }
                 fault::tick();
-                Self::make(self.id.wrapping_add(CLONE_STEP), self.tag)
+                let n = unsafe { CLONES[ix(self.id)] };
+                Self::make(self.id.wrapping_add(CLONE_STEP.wrapping_mul(n)), self.tag)
             }
         }
         impl Drop for $name {
@@ -281,7 +284,8 @@ impl Clone for B1 {
             TOTAL_CLONES += 1;
         }
         fault::tick();
-        B1::make(self.id().wrapping_add(CLONE_STEP), self.tag())
+        let n = unsafe { CLONES[ix(self.id())] };
+        B1::make(self.id().wrapping_add(CLONE_STEP.wrapping_mul(n)), self.tag())
     }
 }
 
